@@ -6,6 +6,7 @@
 //!                 real value operations, and prints both outcomes.
 //! Built only natively (never under Kani); uses the `verif_hooks` re-exports for the VM types.
 #![allow(dead_code)]
+#![allow(unreachable_patterns)]
 #[cfg(kani)]
 fn main() {}
 
@@ -428,6 +429,8 @@ mod imp {
                             Slot::Val(_) => self.stack.push(Slot::Val(CelValue::from_err(CelError::runtime("cannot be called")))),
                         }
                     }
+                    // an instruction this reference does not know (the tree under test may have grown one)
+                    _ => return Err(CelError::misc("reference: unknown instruction")),
                 }
             }
             let last = if resolve {
